@@ -157,12 +157,18 @@ Fixpoint list_ltb (x y : list Z) : bool :=
   | a :: x, b :: y => if a <? b then true else if b <? a then false else list_ltb x y
   end.
 
-(* ordering on the fragment: ints with ints, strings with strings (other mixes are not generated) *)
+(* ordering (impl Ord for Value): by kind first - undefined < none < bool < number < string < seq -,
+   then within the kind (sequences and the bool/number mix are not generated) *)
+Definition kind_rank (v : value) : Z :=
+  match v with
+  | VUndef | VSilent => 0 | VNone => 1 | VBool _ => 2 | VInt _ => 3 | VStr _ _ => 4 | VList _ => 5 | _ => 6
+  end.
 Definition value_ltb (a b : value) : bool :=
   match a, b with
   | VInt x, VInt y => x <? y
   | VStr _ x, VStr _ y => list_ltb x y
-  | _, _ => false
+  | VBool x, VBool y => negb x && y
+  | _, _ => kind_rank a <? kind_rank b
   end.
 
 Definition contains (container item : value) : outcome bool :=
@@ -223,6 +229,7 @@ Definition do_filter (m : ubehav) (esc : bool) (f : name) (v : value) (args : li
   else if f =? F_string then
     match v with
     | VStr b s => Ok (VStr b s)
+    | VUndef => if u_strictish m then Err E_UndefinedError else Ok (VStr false [])   (* filters.rs: assert_value_not_undefined *)
     | _ => Ok (VStr false (show v))
     end
   else if f =? F_safe then
@@ -245,7 +252,8 @@ Definition do_filter (m : ubehav) (esc : bool) (f : name) (v : value) (args : li
              else if f =? F_lower then map lower_c s
              else if f =? F_trim then trim_s s
              else match s with [] => [] | c :: r => upper_c c :: map lower_c r end in
-    Ok (VStr false r))
+    (* argtypes.rs::StringInput::preserve_safety: the result keeps the operand's safe bit *)
+    Ok (VStr (match v with VStr b _ => b | _ => false end) r))
   else if f =? F_first then
     match v with VList (x :: _) => Ok x | VList [] => Ok VUndef | _ => Err E_InvalidOperation end
   else if f =? F_last then
@@ -256,8 +264,8 @@ Definition do_test (t : name) (v : value) : outcome bool :=
   if t =? T_defined then Ok (negb (is_undef v))
   else if t =? T_undefined then Ok (is_undef v)
   else if t =? T_none then Ok (match v with VNone => true | _ => false end)
-  else if t =? T_odd then match v with VInt z => Ok (Z.odd z) | _ => Err E_InvalidOperation end
-  else if t =? T_even then match v with VInt z => Ok (Z.even z) | _ => Err E_InvalidOperation end
+  else if t =? T_odd then match v with VInt z => Ok (Z.odd z) | _ => Ok false end      (* tests.rs: not an integer = false *)
+  else if t =? T_even then match v with VInt z => Ok (Z.even z) | _ => Ok false end
   else Err E_UnknownTest.
 
 Definition loop_attr (idx len : Z) (a : name) : option value :=
